@@ -189,9 +189,10 @@ fn check_monotone<T: Scalar>(k: Kind, xs: &[f64], rng: &mut Rng, out: &mut Trial
     }
 }
 
-fn check_affine<T: Scalar>(k: Kind, xs: &[f64], rng: &mut Rng, out: &mut TrialOut) {
+fn check_affine<T: Scalar>(k: Kind, xs: &[f64], units: f64, rng: &mut Rng, out: &mut TrialOut) {
     let a = *rng.pick(&[0.5, 2.0, 3.0, 0.125, 7.0, 1.0]);
-    let b = *rng.pick(&[0.0, 1.0, -2.5, 100.0, -1024.0]);
+    // (b in the units of the stream, so that a x + b stays exact in f64)
+    let b = units * *rng.pick(&[0.0, 1.0, -2.5, 100.0, -1024.0]);
     let ys: Vec<f64> = xs.iter().map(|x| a * x + b).collect();
     let (Some(ox), Some(oy)) = (drive::<T>(k, xs), drive::<T>(k, &ys)) else { return };
     let cell = format!("{}/affine/{}", k.name(), T::NAME);
@@ -318,6 +319,7 @@ impl Monitor for C04 {
         let class = *rng.pick(&CLASSES);
         let len = if exact { (6 * n + 12).min(200) } else { 6 * n + rng.usize(20, cfg.tier.pick(300, 1500)) };
         let mut xs = gen::gen(class, n, len, &mut rng);
+        let mut units = 1.0f64;
         // Ema, interval and recursion clauses at f64, one trial in six: values of both signs at up to
         // 0.7 x the largest finite f64 (an average of finite values is finite; a difference x - e of
         // two of them need not be)
@@ -329,6 +331,17 @@ impl Monitor for C04 {
             }
             out.count("ema_trials_near_the_largest_finite_value", 1);
         }
+        // one trial in five: the whole stream in other units - an exact power of two, so its structure is
+        // unchanged; an average knows no absolute scale, and every tolerance here is relative to the
+        // largest magnitude delivered
+        else if rng.chance(1, 5) {
+            let s = 2f64.powi(*rng.pick(&[-600, -200, -70, -60, 200, 600]));
+            for x in xs.iter_mut() {
+                *x *= s;
+            }
+            units = s;
+            out.count("trials_in_other_units(2^-600..2^600)", 1);
+        }
         out.key(mix(hash_str(&format!("{:?}{}{}", k, clause, exact)), gen::hash_f64s(&xs)));
         if idx % 149 == 0 {
             out.sample(format!("{} clause {} at {} on {:?}: {} values", Spec::leaf(k).show(), CLAUSES[clause], if exact { "Xq" } else { "f64" }, class, xs.len()));
@@ -337,9 +350,9 @@ impl Monitor for C04 {
             ($t:ty) => {
                 match clause {
                     0 => check_interval::<$t>(k, &xs, out),
-                    1 => check_constant::<$t>(k, *rng.pick(&[1.0, -2.5, 0.0, 1000.0, 0.1, 1.0 / 3.0]), len, out),
+                    1 => check_constant::<$t>(k, *rng.pick(&[1.0, -2.5, 0.0, 1000.0, 0.1, 1.0 / 3.0, 3.0e-18, -1.5e-60, 1.0e200]), len, out),
                     2 => check_monotone::<$t>(k, &xs, &mut rng, out),
-                    3 => check_affine::<$t>(k, &xs, &mut rng, out),
+                    3 => check_affine::<$t>(k, &xs, units, &mut rng, out),
                     _ => check_definition::<$t>(k, &xs, out),
                 }
             };
